@@ -5,6 +5,10 @@ fn main() {
     let mut heap = Heap::new();
     let mut es = samlang_errors::ErrorSet::new();
     let m = samlang_parser::parse_source_module_from_text(&text, ModuleReference::DUMMY, &mut heap, &mut es);
+    if std::env::var("CHECK").is_ok() {
+      let parsed = std::collections::HashMap::from([(ModuleReference::DUMMY, m.clone())]);
+      let _ = samlang_checker::type_check_sources(&parsed, &mut es);
+    }
     let errs = es.pretty_print_error_messages_no_frame_for_test(&heap);
     let printed = if !es.has_errors() { samlang_printer::pretty_print_source_module(&heap, 100, &m) } else { String::new() };
     (errs, vcore::synt::dump_module(&heap, &m), printed)
